@@ -45,7 +45,8 @@ def main():
             # keep the replays of this run for inspection
     finally:
         tag = "alt-" + hashlib.sha1(os.path.abspath(wt).encode()).hexdigest()[:10]
-        for p in ("target-" + tag, "target-" + tag + "-rs", "driver-" + tag, os.path.join("rs", tag), os.path.join("py", tag)):
+        for p in ("target-" + tag, "target-" + tag + "-rs", "driver-" + tag, os.path.join("rs", tag), os.path.join("py", tag),
+                  os.path.join("cxx", tag), os.path.join("java", tag), "fuzz-" + tag):
             shutil.rmtree(os.path.join("/verif/work", p), ignore_errors=True)
         sh("git -C /repo worktree remove --force %s" % wt)
         shutil.rmtree(wt, ignore_errors=True)
